@@ -435,6 +435,14 @@ impl<'data> MergedStringsSection<'data> {
         let mut resources =
             create_split_resources(&mut self.string_offsets, input_sections, reuse_pool, args);
 
+        #[cfg(feature = "verif")]
+        crate::verif_api::mtrace::begin(
+            resources.num_input_groups,
+            MERGE_STRING_BUCKETS,
+            reuse_pool.capacity,
+            reuse_pool.available.load(Ordering::Relaxed),
+        );
+
         rayon::in_place_scope(|s| {
             // Spawn some number of tasks to process input section groups. As these tasks complete,
             // they'll spawn bucket processing tasks to take those inputs. As the bucket processing
@@ -442,6 +450,12 @@ impl<'data> MergedStringsSection<'data> {
             // tasks. This continues until the last inputs and the last buckets have been processed.
             try_spawn_input_processing(&resources, s);
         });
+
+        #[cfg(feature = "verif")]
+        crate::verif_api::mtrace::end(
+            reuse_pool.available.load(Ordering::Relaxed),
+            resources.finished_buckets.len(),
+        );
 
         // Check if we got any errors. We only look at the first error.
         if let Some(error) = resources.errors.pop() {
@@ -569,6 +583,8 @@ fn try_spawn_input_processing<'scope>(
         };
 
         scope.spawn(|scope| {
+            #[cfg(feature = "verif")]
+            crate::verif_api::mtrace::hold();
             if let Some(input_section) = resources.unprocessed.pop()
                 && let Err(error) =
                     process_input_section_group(resources, input_section, scope, &mut reservation)
@@ -576,8 +592,13 @@ fn try_spawn_input_processing<'scope>(
                 let _ = resources.errors.push(error);
             }
 
+            #[cfg(feature = "verif")]
+            crate::verif_api::mtrace::rel_if_held(crate::verif_api::mtrace::Ev::Pop(None));
+
             resources.reuse_pool.unreserve(reservation);
         });
+        #[cfg(feature = "verif")]
+        crate::verif_api::mtrace::perturb("after-spawn");
     }
 }
 
@@ -585,6 +606,17 @@ enum StringsSlot<'data, 'offsets> {
     Empty,
     WaitingForStrings(Box<MergeStringsSectionBucket<'data>>),
     Strings(Vec<StringToMerge<'data, 'offsets>>),
+}
+
+#[cfg(feature = "verif")]
+fn verif_slot_kind(slot: &StringsSlot<'_, '_>) -> crate::verif_api::mtrace::SlotKind {
+    match slot {
+        StringsSlot::Empty => crate::verif_api::mtrace::SlotKind::Empty,
+        StringsSlot::Strings(_) => crate::verif_api::mtrace::SlotKind::Strings,
+        StringsSlot::WaitingForStrings(b) => {
+            crate::verif_api::mtrace::SlotKind::Waiting(b.index, b.next_input_group_index)
+        }
+    }
 }
 
 fn create_split_resources<'data, 'offsets, 'scope>(
@@ -753,16 +785,27 @@ impl ReusePool {
         let r = self.string_vecs.push(reuse_vec(strings_to_merge));
         assert!(r.is_ok());
 
+        #[cfg(feature = "verif")]
+        crate::verif_api::mtrace::hold();
         self.available.fetch_add(1, Ordering::Relaxed);
+        #[cfg(feature = "verif")]
+        crate::verif_api::mtrace::rel(crate::verif_api::mtrace::Ev::Return);
     }
 
     /// Attempt to reserve the specified number of Vecs. Fails if there isn't at least that many
     /// already available.
     fn try_reserve(&self, num_vecs: usize) -> Result<PoolReservation, ()> {
+        #[cfg(feature = "verif")]
+        crate::verif_api::mtrace::hold();
         let available = self.available.load(Ordering::Relaxed);
+        #[cfg(feature = "verif")]
+        crate::verif_api::mtrace::rel(crate::verif_api::mtrace::Ev::Load(available));
         if available < num_vecs {
             return Err(());
         }
+
+        #[cfg(feature = "verif")]
+        crate::verif_api::mtrace::hold();
 
         if self
             .available
@@ -774,8 +817,13 @@ impl ReusePool {
             )
             .is_err()
         {
+            #[cfg(feature = "verif")]
+            crate::verif_api::mtrace::rel(crate::verif_api::mtrace::Ev::Cas(available, false));
             return Err(());
         }
+
+        #[cfg(feature = "verif")]
+        crate::verif_api::mtrace::rel(crate::verif_api::mtrace::Ev::Cas(available, true));
 
         Ok(PoolReservation {
             remaining: num_vecs,
@@ -784,11 +832,21 @@ impl ReusePool {
 
     #[allow(clippy::needless_pass_by_value)]
     fn unreserve(&self, reservation: PoolReservation) {
+        #[cfg(feature = "verif")]
+        crate::verif_api::mtrace::hold();
+        #[cfg(feature = "verif")]
+        if reservation.remaining == 0 {
+            crate::verif_api::mtrace::rel(crate::verif_api::mtrace::Ev::Unreserve(0));
+        }
         if reservation.remaining == 0 {
             return;
         }
         self.available
             .fetch_add(reservation.remaining, Ordering::Relaxed);
+        #[cfg(feature = "verif")]
+        crate::verif_api::mtrace::rel(crate::verif_api::mtrace::Ev::Unreserve(
+            reservation.remaining,
+        ));
     }
 }
 
@@ -817,6 +875,9 @@ fn process_input_section_group<'data, 'offsets, 'scope>(
 ) -> Result {
     verbose_timing_phase!("Split and hash");
 
+    #[cfg(feature = "verif")]
+    crate::verif_api::mtrace::rel_if_held(crate::verif_api::mtrace::Ev::Pop(Some(group_in.index)));
+
     let mut buckets: [Vec<StringToMerge<'data, 'offsets>>; MERGE_STRING_BUCKETS] = [();
         MERGE_STRING_BUCKETS]
         .map(|()| resources.reuse_pool.take_string_merge_vec(reservation));
@@ -834,8 +895,16 @@ fn process_input_section_group<'data, 'offsets, 'scope>(
     resources.finished_shards[group_in.index].store(Some(group_in.offsets_shard));
 
     for (i, bucket_out) in buckets.iter_mut().enumerate() {
+        #[cfg(feature = "verif")]
+        crate::verif_api::mtrace::hold();
         let prev_slot =
             resources.swap_strings_slot(group_in.index, i, StringsSlot::Strings(take(bucket_out)));
+        #[cfg(feature = "verif")]
+        crate::verif_api::mtrace::rel(crate::verif_api::mtrace::Ev::Swap(
+            group_in.index,
+            i,
+            verif_slot_kind(&prev_slot),
+        ));
         if let StringsSlot::WaitingForStrings(bucket) = prev_slot {
             scope.spawn(|scope| {
                 if let Err(error) = work_with_bucket(resources, bucket, scope) {
@@ -859,6 +928,10 @@ fn work_with_bucket<'data, 'scope>(
     let mut overflowed_offsets = resources.overflowed_offsets.get_or_default().borrow_mut();
 
     while bucket.next_input_group_index < resources.num_input_groups {
+        #[cfg(feature = "verif")]
+        crate::verif_api::mtrace::set_owner(bucket.index, bucket.next_input_group_index);
+        #[cfg(feature = "verif")]
+        crate::verif_api::mtrace::hold();
         let mut strings_to_merge = {
             let group_index = bucket.next_input_group_index;
 
@@ -868,6 +941,12 @@ fn work_with_bucket<'data, 'scope>(
             .unwrap();
 
             let slot = replace(&mut *lock, StringsSlot::Empty);
+            #[cfg(feature = "verif")]
+            crate::verif_api::mtrace::rel(crate::verif_api::mtrace::Ev::Take(
+                bucket.index,
+                group_index,
+                verif_slot_kind(&slot),
+            ));
             let StringsSlot::Strings(strings) = slot else {
                 *lock = StringsSlot::WaitingForStrings(bucket);
                 return Ok(());
@@ -888,8 +967,17 @@ fn work_with_bucket<'data, 'scope>(
         bucket.next_input_group_index += 1;
     }
 
+    #[cfg(feature = "verif")]
+    let verif_finish = crate::verif_api::mtrace::Ev::Finish(
+        bucket.index,
+        bucket.next_input_group_index,
+    );
+    #[cfg(feature = "verif")]
+    crate::verif_api::mtrace::hold();
     // This bucket has now processed all input sections, so it's done.
     let _ = resources.finished_buckets.push(bucket);
+    #[cfg(feature = "verif")]
+    crate::verif_api::mtrace::rel(verif_finish);
     Ok(())
 }
 
@@ -1154,4 +1242,129 @@ fn reuse_vec<T, U>(mut v: Vec<T>) -> Vec<U> {
     // Make sure that we actually reused the old storage.
     debug_assert_eq!(old_storage as usize, u.as_ptr() as usize);
     u
+}
+
+/// Verification hooks for property C07 (sequential content of string merging). Add-only; compiled
+/// only with feature `verif`. Runs the real splitter / scanner / bucket code on caller-supplied
+/// sections. Does not touch the C40 (concurrency) event hooks.
+#[cfg(feature = "verif")]
+pub(crate) mod verif_c07 {
+    use super::*;
+
+    /// Same offset assignment as `group_merge_string_sections_by_output`.
+    fn make_inputs(sections: &[(Vec<u8>, bool)]) -> Vec<StringMergeInputSection<'_>> {
+        let mut start = LinearInputOffset(0);
+        let mut out = Vec::new();
+        for (data, is_string) in sections {
+            out.push(StringMergeInputSection {
+                section_data: data,
+                start_input_offset: start,
+                is_string: *is_string,
+            });
+            start = start + (data.len() as u64).next_multiple_of(MAP_BLOCK_SIZE);
+        }
+        out
+    }
+
+    /// `hash_bytes(s) % MERGE_STRING_BUCKETS`, the bucket selection used by `process_input_section`.
+    pub(crate) fn bucket_of(bytes: &[u8]) -> usize {
+        (crate::hash::hash_bytes(bytes) as usize) % MERGE_STRING_BUCKETS
+    }
+
+    /// Runs the real `split_sections`; returns `(first_section_index, num_sections, start, end)`.
+    pub(crate) fn split(sections: &[(Vec<u8>, bool)], group_bytes: u64) -> Vec<(usize, usize, u64, u64)> {
+        let inputs = make_inputs(sections);
+        let mut map: OffsetMap<BucketOffset, MAP_BLOCK_SIZE> = Default::default();
+        let mut writer = map.start_sharded_write(total_input_size(&inputs).0);
+        let size = group_bytes.next_multiple_of(MAP_BLOCK_SIZE) as usize;
+        let groups = split_sections(&inputs, &mut writer, size);
+        let mut out = Vec::new();
+        let mut shards = Vec::new();
+        for g in groups {
+            let first_start = g.sections[0].start_input_offset;
+            let first = inputs
+                .iter()
+                .position(|s| s.start_input_offset == first_start && std::ptr::eq(s, &g.sections[0]))
+                .unwrap_or(usize::MAX);
+            out.push((first, g.sections.len(), g.range.start.0, g.range.end.0));
+            shards.push(g.offsets_shard);
+        }
+        for s in shards {
+            writer.return_shard(s);
+        }
+        out
+    }
+
+    pub(crate) struct Merged {
+        pub(crate) bucket_offsets: Vec<u64>,
+        pub(crate) bucket_bytes: Vec<Vec<u8>>,
+        /// Every linear input offset present in the offset map (primary or overflow), with the
+        /// output offset (bucket base + offset in bucket) it maps to.
+        pub(crate) map: Vec<(u64, u64)>,
+        pub(crate) overflowed: usize,
+        /// One answer per query.
+        pub(crate) answers: Vec<std::result::Result<u64, String>>,
+    }
+
+    /// Runs the real `add_input_sections` (split, scan, bucket, dedup, offsets) then answers
+    /// `(section, symbol_value, addend, named)` queries with the real `find_string`, combining the
+    /// result exactly as `get_merged_string_output_address` does (section start address 0).
+    pub(crate) fn merge(
+        sections: &[(Vec<u8>, bool)],
+        group_bytes: u64,
+        parallelism: u64,
+        threads: usize,
+        queries: &[(usize, u64, i64, bool)],
+    ) -> Result<Merged> {
+        let inputs = make_inputs(sections);
+        let mut args = crate::args::elf::ElfArgs::default();
+        args.common_mut().numeric_experiments = vec![Some(parallelism), Some(group_bytes)];
+        let reuse_pool = ReusePool::new(MERGE_STRING_BUCKETS * parallelism as usize);
+        let pool = rayon::ThreadPoolBuilder::new()
+            .num_threads(threads)
+            .build()
+            .map_err(|e| crate::error!("pool: {e}"))?;
+        let mut sec = MergedStringsSection::default();
+        if !inputs.is_empty() {
+            pool.install(|| sec.add_input_sections(&inputs, &reuse_pool, &args))?;
+        }
+        let total = total_input_size(&inputs).0;
+        let resolve = |bo: BucketOffset| sec.bucket_offsets[bo.bucket()] + bo.offset_in_bucket();
+        let mut map = Vec::new();
+        for k in 0..total {
+            let v = sec
+                .string_offsets
+                .get(k)
+                .or_else(|| sec.overflowed_string_offsets.get(&LinearInputOffset(k)).copied());
+            if let Some(v) = v {
+                map.push((k, resolve(v)));
+            }
+        }
+        let answers = queries
+            .iter()
+            .map(|&(si, value, addend, named)| {
+                let slot = StringMergeSectionSlot {
+                    start_input_offset: inputs[si].start_input_offset,
+                };
+                // As in `get_merged_string_output_address`.
+                let mut input_offset = value;
+                if !named {
+                    input_offset = input_offset.wrapping_add(addend as u64);
+                }
+                let bo = find_string(slot, input_offset, &sec).map_err(|e| e.to_string())?;
+                let mut address = resolve(bo);
+                if named {
+                    address = address.wrapping_add(addend as u64);
+                }
+                Ok(address)
+            })
+            .collect();
+        Ok(Merged {
+            bucket_offsets: sec.bucket_offsets.to_vec(),
+            bucket_bytes: sec.buckets.iter().map(|b| b.strings.concat()).collect(),
+            map,
+            overflowed: sec.overflowed_string_offsets.len(),
+            answers,
+        })
+    }
 }
